@@ -34,3 +34,36 @@ pub(crate) fn epsilon_const() -> f64 {
 pub(crate) fn inverse_epsilon_const() -> f64 {
     1e11
 }
+
+//@ ob: id=C08/N/table_model_matches_real_table kind=native-check fns=UNIT_CONVERSION_TABLE,KNOWN_COMPATIBILITIES,epsilon,inverse_epsilon also=C01,C07,C09,C16
+//@ desc: validation of the mechanical extraction, run natively on every check that uses it: for all 41x41 unit pairs the generated match returns bit-for-bit what the real Lazy<HashMap> table holds (same keys, same f64 bits); the compatibility-set model agrees with the real HashSets; epsilon()/inverse_epsilon() equal the constants 1e-11/1e11 used in the harnesses
+pub(crate) fn native_table_model_matches_real_table() {
+    use crate::unit::verif_kani_support::{compat_class_model, compat_set_contains_model, unit_of, N_ALL};
+    use crate::unit::{known_compatibilities_by_unit, UNIT_CONVERSION_TABLE};
+    let mut entries = 0usize;
+    let mut a = 0u8;
+    while a < N_ALL {
+        let mut b = 0u8;
+        while b < N_ALL {
+            let (ua, ub) = (unit_of(a, 1), unit_of(b, 1));
+            let real = UNIT_CONVERSION_TABLE.get(&ua).and_then(|m| m.get(&ub)).copied();
+            let model = table_model(&ua, &ub);
+            assert!(real.map(f64::to_bits) == model.map(f64::to_bits), "table model differs from UNIT_CONVERSION_TABLE");
+            if real.is_some() {
+                entries += 1;
+            }
+            let real_set = known_compatibilities_by_unit(&ua);
+            let model_class = compat_class_model(&ua);
+            assert!(real_set.is_some() == model_class.is_some(), "compatibility class model differs");
+            if let (Some(s), Some(c)) = (real_set, model_class) {
+                assert!(s.contains(&ub) == compat_set_contains_model(c, &ub), "compatibility set model differs from KNOWN_COMPATIBILITIES");
+            }
+            b += 1;
+        }
+        a += 1;
+    }
+    let total: usize = UNIT_CONVERSION_TABLE.values().map(|m| m.len()).sum();
+    assert!(total == entries, "real table has entries outside the enumerated unit domain");
+    assert!(epsilon().to_bits() == epsilon_const().to_bits(), "epsilon() is not 1e-11");
+    assert!(inverse_epsilon().to_bits() == inverse_epsilon_const().to_bits(), "inverse_epsilon() is not 1e11");
+}
